@@ -44,6 +44,11 @@ class Wire(object):
         other = 't2i' if d == 'i2t' else 'i2t'
         if q[0] == 'FRMR':
             self.bad.append(('frmr-on-wire', d, q))
+        if q[0] == 'CC':
+            # a new data link connection starts with all state variables 0
+            # (scenarios use one connection at a time)
+            self.next_ns = {'i2t': 0, 't2i': 0}
+            self.acked = {'i2t': 0, 't2i': 0}
         if q[0] == 'I':
             ns, nr = q[3], q[4]
             if ns != self.next_ns[d]:
@@ -96,7 +101,7 @@ def execute(cfg, chooser, want_trace=False):
     A.activate(mi)
     assert A.mac is mi and B.mac is mt
     n_ab, n_ba = cfg['n']
-    out = dict(got_b=[], got_a=[], threads={}, est=0)
+    out = dict(got_b=[], got_a=[], got_b2=[], threads={}, est=0)
     stop = [False]
     srv = nfc.llcp.Socket(B, DLC)
     srv.setsockopt(nfc.llcp.SO_RCVBUF, rw_b)
@@ -129,8 +134,11 @@ def execute(cfg, chooser, want_trace=False):
         if out['est'] < 2:
             sched.S.block(lambda: out['est'] >= 2, None, 'wait', 'est')
 
+    cli_addr = []
+
     def a_main():
         cli.connect('urn:nfc:sn:svc')
+        cli_addr.append(cli.getsockname())
         socks['a'] = cli
         established()
         wait_est()
@@ -142,6 +150,21 @@ def execute(cfg, chooser, want_trace=False):
                 return 'send-false@%d' % i
         if cfg.get('extra') == 'close':
             cli.close()          # messages accepted before must still arrive
+        if cfg.get('extra') == 'reconnect':
+            # the first connection is closed once its messages have arrived;
+            # a new socket (it gets the address just released) connects to
+            # the same service and sends the second batch
+            sched.S.block(lambda: len(out['got_b']) >= n_ab, None, 'wait',
+                          'batch1')
+            cli.close()
+            cli2 = nfc.llcp.Socket(A, DLC)
+            cli2.setsockopt(nfc.llcp.SO_RCVBUF, rw_a)
+            cli2.setsockopt(nfc.llcp.SO_RCVMIU, cfg['miu'])
+            cli2.connect('urn:nfc:sn:svc')
+            out['addr'] = (cli_addr[0], cli2.getsockname())
+            for i in range(n_ab, 2 * n_ab):
+                if not cli2.send(message('a', i, cfg['size'])):
+                    return 'send-false@%d' % i
         return 'sent'
 
     def b_main():
@@ -156,6 +179,15 @@ def execute(cfg, chooser, want_trace=False):
                 return 'closed@%d' % i
         if cfg.get('extra') == 'close':
             out['after_close'] = conn.recv()      # None once the peer closed
+        if cfg.get('extra') == 'reconnect':
+            # the accepted socket of the first connection is kept (not
+            # closed) while the second connection is accepted and used
+            conn2 = srv.accept()
+            for i in range(n_ab):
+                m = conn2.recv()
+                out['got_b2'].append(m)
+                if m is None:
+                    return 'closed2@%d' % i
         return 'rcvd'
 
     def a_second():
@@ -234,6 +266,12 @@ def judge(cfg, s, out, wire):
             bad.append(('delivery|b->a|%s' % delivery_class(out['got_a'],
                                                              want_a),
                         dict(got=out['got_a'], want=want_a)))
+    if cfg.get('extra') == 'reconnect' and s.verdict == 'finished':
+        want_b2 = [message('a', i, cfg['size']) for i in range(n_ab, 2 * n_ab)]
+        if out['got_b2'] != want_b2:
+            bad.append(('delivery|a->b|second-connection|%s' % delivery_class(
+                out['got_b2'], want_b2), dict(got=out['got_b2'], want=want_b2,
+                                              addresses=out.get('addr'))))
     if cfg.get('extra') == 'close' and s.verdict == 'finished' and \
             out.get('after_close', None) is not None:
         bad.append(('delivery|after-close|data-after-disconnect',
@@ -321,6 +359,8 @@ def configs(tier):
                         extra='close', traced=traced))
         out.append(dict(rw=(1, 1), n=(4, 0), agf=True, miu=128, size=20,
                         extra='two-senders', traced=traced))
+        out.append(dict(rw=(2, 2), n=(2, 0), agf=True, miu=128, size=20,
+                        extra='reconnect', traced=traced, bound=1))
         return out
     for rw in ((1, 1), (2, 1), (1, 2), (2, 2)):
         for n in ((3, 0), (2, 2)):
@@ -335,6 +375,9 @@ def configs(tier):
                         extra='close', traced=traced))
         out.append(dict(rw=rw, n=(4, 0), agf=rw == (2, 2), miu=128, size=20,
                         extra='two-senders', traced=traced))
+    for rw in ((1, 1), (2, 2)):
+        out.append(dict(rw=rw, n=(2, 0), agf=rw == (2, 2), miu=128, size=20,
+                        extra='reconnect', traced=traced))
     out.append(dict(rw=(2, 2), n=(4, 3), agf=True, miu=129, size=129,
                     traced=traced))
     out.append(dict(rw=(3, 3), n=(4, 0), agf=False, miu=128, size=1,
@@ -375,7 +418,9 @@ def main(tier='quick', seed=0, part=None):
         "B->A exchange, close} up to the message budget, states deduplicated "
         "by a canonical dump of both controllers; sched: scenario = RW pair x "
         "message counts per direction x aggregation x optional busy-toggling "
-        "thread, every schedule with <= %d deviations from the default schedule "
+        "thread / close / two senders / reconnect (second connection from the "
+        "address just released), every schedule with <= %d deviations (scenario "
+        "'reconnect' in the quick tier: 1) from the default schedule "
         "(any non-default thread choice or a timer landing first) after the "
         "connection is established; distinct = distinct canonical state / (scenario, choice "
         "list); non-trivial = at least one I PDU crossed the link" % bound)
@@ -390,6 +435,8 @@ def main(tier='quick', seed=0, part=None):
     cov['sched_deviation_bound_completed'] = bound
     cov['sched_scenarios_with_bound_3'] = len(
         [c for c in sched_cfgs if c.get('bound') == 3])
+    cov['sched_scenarios_with_bound_1'] = len(
+        [c for c in sched_cfgs if c.get('bound') == 1])
     cov['sched_scenarios_capped'] = capped
     cov['states'] = bfs_cov.get('states', 0) + run.counters.get(
         'choice_points', 0)
